@@ -54,6 +54,7 @@ func transportRules(c *Ctx) {
 	}
 	ruleOneReceiver(c, midiClasses)
 	ruleForwardOnce(c, cf, midiClasses)
+	ruleRelayDrains(c, cf, midiClasses)
 	ruleFanOut(c)
 	ruleNoSendAfterClose(c, midiClasses)
 }
@@ -87,6 +88,7 @@ func checkC15(c *Ctx) {
 	c.Check(len(midiClasses) >= 6, "R15.1", "midi-path-channels", "-", fmt.Sprintf("%d abstract channels on the MIDI path (of %d in the program)", len(midiClasses), len(classes)), "MIDI path channels not found")
 	ruleOneReceiver(c, midiClasses)
 	ruleForwardOnce(c, cf, midiClasses)
+	ruleRelayDrains(c, cf, midiClasses)
 	ruleFanOut(c)
 	ruleNoSendAfterClose(c, midiClasses)
 	c.MinCount("R15.1", 6)
@@ -1201,4 +1203,117 @@ func discardingDrain(c *Ctx, f *ssa.Function) (string, bool) {
 		}
 	}
 	return "", false
+}
+
+// ruleRelayDrains: R15.7 the relay that carries what devices emit to the port keeps forwarding until its source is closed.
+// Devices still emit after the application context was cancelled (the disconnect clean-up releases every held note, R1.5);
+// a relay that leaves its loop on cancellation drops those Note Offs (notes keep sounding on the synthesiser after HIDI has
+// quit) and, once the queue is full, blocks the emitting device for ever.  Decided on the paths of the relay function:
+// every path that returns has, as its last receive on the device-output class, one whose comma-ok result is false.
+func ruleRelayDrains(c *Ctx, cf *chanFlow, classes []*chanClass) {
+	for _, cl := range classes {
+		fromDevices := false
+		for _, s := range cl.Sends {
+			top := topFunc(s.Fn)
+			if top.Pkg != nil && top.Pkg.Pkg.Path() == pkgDevice {
+				fromDevices = true
+			}
+		}
+		if !fromDevices {
+			continue
+		}
+		recvAt := map[ssa.Instruction]map[int]bool{}
+		fns := map[*ssa.Function]bool{}
+		for _, r := range cl.Recvs {
+			if recvAt[r.Instr] == nil {
+				recvAt[r.Instr] = map[int]bool{}
+			}
+			recvAt[r.Instr][r.Aux] = true
+			fns[r.Fn] = true
+		}
+		var list []*ssa.Function
+		for f := range fns {
+			list = append(list, f)
+		}
+		sort.Slice(list, func(i, j int) bool { return list[i].String() < list[j].String() })
+		for _, fn := range list {
+			key := "relay@" + shortFn(fn) + "/forwards-until-source-closed"
+			pos := c.P.Pos(fn.Pos())
+			paths, err := Enumerate(fn, SymConfig{Prog: c.P, MaxDepth: 1, Collapse: true, OnlyInline: map[*ssa.Function]bool{}})
+			if err != nil {
+				c.Undec("R15.7", key, pos, fmt.Sprint(err))
+				continue
+			}
+			c.Paths += len(paths)
+			n, bad := 0, ""
+			for _, p := range paths {
+				if p.End != "return" {
+					continue
+				}
+				// last receive on the class
+				closedSeen, any := false, false
+				why := ""
+				for i := range p.Effects {
+					e := &p.Effects[i]
+					if recvAt[e.Instr] == nil {
+						continue
+					}
+					var okT *Term
+					switch e.Kind {
+					case "recv":
+						if u, isU := e.Instr.(*ssa.UnOp); isU && u.CommaOk {
+							okT = &Term{Op: "extract", Args: []*Term{e.Args[1]}, Aux: "1"}
+						}
+						any = true
+					case "next":
+						okT = &Term{Op: "extract", Args: []*Term{e.Args[1]}, Aux: "0"}
+						any = true
+					case "select":
+						any = true
+						sel := e.Instr.(*ssa.Select)
+						st := p.selectTerm(e)
+						chosen := int64(-1)
+						if st != nil {
+							idx := (&Term{Op: "extract", Args: []*Term{st}, Aux: "0"}).String()
+							for _, a := range p.Atoms {
+								if op, x, y, ok := normAtom(a); ok && op == "==" && x.String() == idx {
+									if k, isK := y.IsIntConst(); isK {
+										chosen = k
+									}
+								}
+							}
+						}
+						if chosen >= 0 && int(chosen) < len(sel.States) && recvAt[e.Instr][int(chosen)] {
+							okT = &Term{Op: "extract", Args: []*Term{st}, Aux: "1"}
+						} else {
+							okT = nil
+							why = fmt.Sprintf("another case of the select at %s was taken", c.P.Pos(sel.Pos()))
+						}
+					default:
+						continue
+					}
+					closedSeen = false
+					if okT != nil {
+						if v, known := boolAtom(p.Atoms, okT.String()); known && !v {
+							closedSeen = true
+						} else {
+							why = fmt.Sprintf("the receive at %s delivered a message (or its ok result is not tested)", c.P.Pos(e.Instr.Pos()))
+						}
+					}
+				}
+				if !any {
+					continue
+				}
+				n++
+				if !closedSeen && bad == "" {
+					bad = fmt.Sprintf("the relay stops (returns) although its source channel was not seen closed - %s: what devices emit afterwards (the Note Offs of the disconnect clean-up at shutdown) never reaches the port, and the devices block once the queue is full", why)
+				}
+			}
+			if n == 0 {
+				c.Undec("R15.7", key, pos, "no returning path with a receive on the device-output channel")
+				continue
+			}
+			c.Check(bad == "", "R15.7", key, pos, fmt.Sprintf("%d returning path(s), each after the source was seen closed", n), bad)
+		}
+	}
 }
